@@ -27,16 +27,20 @@ func (Driver) Info() core.Info {
 		Title: "type equality, conformance and type serialization obey their algebra",
 		Rule: "cases are (a) every ordered pair of the types of depth<=2 over {bool,number,string,dynamic,capsule A,capsule B,list,set,map,tuple(0..3; thorough 0..4),object over names a,b with every optional subset} " +
 			"(904 types quick / 5000 thorough; both sides built independently), each type also checked alone (HasDynamicTypes, WithoutOptionalAttributesDeep, JSON); " +
-			"(b) sampled types of depth<=4 (dynamic, optional attributes, capsules, attribute names incl. \"\" and a non-ASCII name) with EVERY single-position mutant " +
+			"(b) sampled types of depth<=4 (3 in 4 drawn by gen.Type: tuples/objects of <=3 members, one attribute in four optional; 1 in 4 drawn wide: tuples/objects of <=6 members, every second attribute optional; " +
+			"dynamic, capsules, attribute names incl. \"\", a non-ASCII name and names that need JSON escaping) with EVERY single-position mutant " +
 			"(kind / element type / attribute type / tuple element type, attribute name, attribute count, optional flag, optional flag moved, tuple position, tuple length, capsule identity), pair oracles in both directions; " +
 			"(c) triples: all triples of a 56-type sub-space and sampled triples (origin, independent rebuild / mutant / mutant of mutant / stripped / unrelated) checked for reflexivity, symmetry, transitivity on the observed answers; " +
-			"(d) a fixed corpus. distinct = canonical text of the (pair of) model tree(s); non-trivial pair = both sides have the same top-level kind or the constraint side is the dynamic placeholder " +
+			"(d) a fixed corpus. Every pair is decided twice: against the model (Equals==TypeEq, TestConformance==Conforms) and, for conformance, literally as the statement words it with the library's own functions: " +
+			"conforms <=> strip(given).Equals(strip(constraint with its placeholders replaced by the corresponding parts of given)). " +
+			"distinct = canonical text of the (pair of) model tree(s); non-trivial pair = both sides have the same top-level kind or the constraint side is the dynamic placeholder " +
 			"(the comparison goes below the top-level kind); non-trivial mutant case = always (differs from its origin in one position)",
 		Assumptions: []string{
-			"model.TypeEq / Conforms / HasDynamic / StripOptional (written from the documentation) are the reference; model.TNodeOf re-reads a cty.Type through public accessors only",
-			"capsule identity is modelled by the capsule's name; the two generated capsule types have different names (a same-name, different-pointer capsule is in the corpus)",
+			"model.TypeEq / Conforms / HasDynamic / StripOptional (written from the documentation) are the reference; model.TNodeOf re-reads a cty.Type through public accessors only (each built type is first read back and compared with its tree)",
+			"two separately constructed, structurally identical types are the same type (Equals must answer true); capsule identity is modelled by the capsule's name; the two generated capsule types have different names (same-name, different-pointer capsules are in the corpus)",
 			"attribute names are NFC (cty normalizes attribute names; NFD names are outside the model)",
-			"a panic of any of the monitored entry points on a well-formed type is a violation (none of them documents a panic for valid types)",
+			"a panic of a monitored entry point on a well-formed type counts as a failure of the clause that entry point decides (none documents a panic for valid types)",
+			"what MarshalJSON does with a type that contains a capsule is recorded but not judged: the statement promises the round trip for capsule-free types only",
 		},
 		MinNontrivial: 100000,
 	}
@@ -659,7 +663,7 @@ func (Driver) Run(c *core.Ctx) {
 // sampled: depth-4 types, every single-position mutant, and a triple.
 func (r *run) sampled() {
 	c := r.c
-	n := int64(c.N(2500, 8000))
+	n := int64(c.N(2000, 6000))
 	for i := int64(0); i < n; i++ {
 		if !c.Want(i) {
 			continue
@@ -842,7 +846,9 @@ func (r *run) exhaustiveTriples() {
 					continue
 				}
 				fam := []*m.TNode{Ts[i], Ts[j], Ts[k]}
-				c.Begin(idx, func() string { return "enumerated triple: " + fam[0].String() + " | " + fam[1].String() + " | " + fam[2].String() })
+				c.Begin(idx, func() string {
+					return "enumerated triple: " + fam[0].String() + " | " + fam[1].String() + " | " + fam[2].String()
+				})
 				tys := make([]cty.Type, 3)
 				ok := true
 				for x := range fam {
